@@ -161,7 +161,8 @@ long_ea_modes = tuple(
 class DataRegDstEa(Constructor):
     """Data register access"""
 
-    reg = Operand("reg", DataRegister, read=True)
+    # A byte or word move keeps the upper part of the register.
+    reg = Operand("reg", DataRegister, read=True, write=True)
     syntax = Syntax([reg])
     patterns = {"opmode": 0, "register": reg}
 
@@ -185,6 +186,20 @@ class AddressOffsetDstEa(Constructor):
 
 
 dst_ea_modes = (DataRegDstEa, AddressDstEa, AddressOffsetDstEa)
+
+
+class DataRegModifyEa(Constructor):
+    """Data register that is read, modified and written back"""
+
+    reg = Operand("reg", DataRegister, read=True, write=True)
+    syntax = Syntax([reg])
+    patterns = {"ea_mode": 0, "ea_register": reg}
+
+
+# Operands that are modified in place (neg, not, eor):
+modify_ea_modes = tuple(
+    DataRegModifyEa if m is DataRegEa else m for m in ea_modes
+)
 
 
 class M68kInstruction(Instruction):
@@ -221,7 +236,7 @@ def make_dn_ea(mnemonic, opcode, opmode):
 
     """
     dn = Operand("dn", DataRegister, read=True)
-    ea = Operand("ea", ea_modes)
+    ea = Operand("ea", modify_ea_modes)
     syntax = Syntax([mnemonic, " ", dn, ",", " ", ea])
     patterns = {"opcode": opcode, "register": dn, "opmode": opmode}
     members = {
@@ -235,8 +250,8 @@ def make_dn_ea(mnemonic, opcode, opmode):
     return type(class_name, (M68kInstruction,), members)
 
 
-def make_ea(mnemonic, opcode, size):
-    ea = Operand("ea", ea_modes)
+def make_ea(mnemonic, opcode, size, modes=modify_ea_modes):
+    ea = Operand("ea", modes)
     syntax = Syntax([mnemonic, " ", ea])
     patterns = {"opcode2": opcode, "size": size}
     members = {
@@ -375,7 +390,7 @@ Subb = make_ea_dn("subb", 0b1001, opmode=0b000)
 Subw = make_ea_dn("subw", 0b1001, opmode=0b001)
 Subl = make_ea_dn("subl", 0b1001, opmode=0b010)
 
-Jsr = make_ea("jsr", 0x4E, 2)
+Jsr = make_ea("jsr", 0x4E, 2, modes=ea_modes)
 
 Negb = make_ea("negb", 0x44, 0)
 Negw = make_ea("negw", 0x44, 1)
@@ -560,7 +575,7 @@ def pattern_sub8(context, tree, regd, ea):
 def pattern_neg32(context, tree, regd):
     dst = context.new_reg(DataRegister)
     context.move(dst, regd)
-    context.emit(Negl(DataRegEa(dst)))
+    context.emit(Negl(DataRegModifyEa(dst)))
     return dst
 
 
@@ -569,7 +584,7 @@ def pattern_neg32(context, tree, regd):
 def pattern_neg16(context, tree, regd):
     dst = context.new_reg(DataRegister)
     context.move(dst, regd)
-    context.emit(Negw(DataRegEa(dst)))
+    context.emit(Negw(DataRegModifyEa(dst)))
     return dst
 
 
@@ -578,7 +593,7 @@ def pattern_neg16(context, tree, regd):
 def pattern_neg8(context, tree, regd):
     dst = context.new_reg(DataRegister)
     context.move(dst, regd)
-    context.emit(Negb(DataRegEa(dst)))
+    context.emit(Negb(DataRegModifyEa(dst)))
     return dst
 
 
@@ -671,7 +686,7 @@ def pattern_xor8(context, tree, regd, ea):
 def pattern_inv32(context, tree, regd):
     dst = context.new_reg(DataRegister)
     context.move(dst, regd)
-    context.emit(Notl(DataRegEa(dst)))
+    context.emit(Notl(DataRegModifyEa(dst)))
     return dst
 
 
@@ -680,7 +695,7 @@ def pattern_inv32(context, tree, regd):
 def pattern_inv16(context, tree, regd):
     dst = context.new_reg(DataRegister)
     context.move(dst, regd)
-    context.emit(Notw(DataRegEa(dst)))
+    context.emit(Notw(DataRegModifyEa(dst)))
     return dst
 
 
@@ -689,7 +704,7 @@ def pattern_inv16(context, tree, regd):
 def pattern_inv8(context, tree, regd):
     dst = context.new_reg(DataRegister)
     context.move(dst, regd)
-    context.emit(Notb(DataRegEa(dst)))
+    context.emit(Notb(DataRegModifyEa(dst)))
     return dst
 
 
